@@ -267,6 +267,32 @@ func §gen() ITER[int] GEN[int]{
 	RETNIL
 }GEN
 `+StdEntry, "deleg:in-for-post", "shadow"),
+		Raw("deleg-alias-typed-delegates", `
+type §ints = ITER[int]
+
+func §sub(from, n int) ITER[int] GEN[int]{
+	tr.E(100 + from)
+	for i := 0; i < n; i++ {
+		YIELD(from + i)
+	}
+	RETNIL
+}GEN
+func §pass(it §ints) §ints { tr.E(7); return it }
+
+type §holder struct{ it §ints }
+
+func §gen() ITER[int] GEN[int]{
+	var it §ints = §sub(10, 2)
+	YFROM(it)
+	tr.E(1)
+	YFROM(§pass(§sub(20, 2)))
+	h := §holder{it: §sub(30, 3)}
+	h.it.MoveNext()
+	YFROM(h.it)
+	tr.E(2)
+	RETNIL
+}GEN
+`+StdEntry, "deleg:alias-typed"),
 		Raw("deleg-generic-and-method-generators", `
 type §box struct{ xs []int }
 
